@@ -202,6 +202,16 @@ SHAPES = ['', '\n', ' ', '\n\n\n', '// only a comment', '// c\n', '/* block */',
           'Table t {\n  id int\n  Note: \'a\'\n  Note: \'b\'\n}\n', 'Table t {\n  id int\n  indexes {\n    id\n  }\n  indexes {\n    id [pk]\n  }\n}\n']
 
 
+NUM_ALPHABET = ['1', '0', '.', 'e', 'E', '-', '+', 'x', '_']
+
+
+def number_strings(n):
+    out = []
+    for k in range(1, n + 1):
+        out += [''.join(t) for t in itertools.product(NUM_ALPHABET, repeat=k)]
+    return out
+
+
 def site_strings(n):
     out = []
     for k in range(0, n + 1):
@@ -269,6 +279,10 @@ def work(unit):
         n = 2 if tier == 'quick' else 3
         for s in site_strings(n):
             check(p, 'site', tmpl.replace('§', s), allow_properties=label in PROPS_SITES, extra={'site': label, 'inserted': s})
+        if label == 'bare default':
+            # number-like spellings: every string up to length 3 (quick) / 4 over digits, dot, exponent letters and signs
+            for s in number_strings(n + 1):
+                check(p, 'site', tmpl.replace('§', s), extra={'site': label, 'inserted': s})
         p['samples'].append({'family': 'site', 'site': label, 'template': tmpl})
     else:
         for s in SHAPES:
